@@ -51,6 +51,7 @@ def forward_sites_check(ch: Checker, rule: str, want_via: bool, via_rule: Option
                     continue   # opaque relay of raw bytes, not a rebuilt request
                 is_forward = True
                 per_site['paths'] += 1
+                per_site.setdefault('text', '%s(%s)' % (norm(qcall.func), norm(arg)))      # the site by value: a named temporary for the built request is read through
                 P = norm(b.func.value)  # type: ignore[attr-defined]
                 # scan the path prefix
                 deleted: set = set()
@@ -101,7 +102,7 @@ def forward_sites_check(ch: Checker, rule: str, want_via: bool, via_rule: Option
                 ch.ok(via_rule, fn, qcall, 'Via naming the proxy is added on every path to this forward site')
             for tunnel, wit in per_site['via_missing'].items():
                 what = {True: ' [requests decrypted out of an intercepted CONNECT tunnel]', False: ' [plain HTTP]', None: ''}[tunnel]
-                ch.bad(via_rule, fn, 'Via%s @ %s' % (what, norm(qcall)[:80]),
+                ch.bad(via_rule, fn, 'Via%s @ %s' % (what, per_site.get('text', norm(qcall))[:80]),
                        'a rebuilt request is forwarded without a Via field naming the proxy%s' % what, witness=wit, line=qcall.lineno)
     if n_sites == 0:
         ch.bad(rule, None, 'forward sites', 'no site forwarding a rebuilt request was found in HttpProxyPlugin', module_rel='proxy/http/proxy/server.py')
